@@ -195,7 +195,7 @@ Proof.
     apply in_map_iff in Hi. destruct Hi as [p [<- Hp]]. cbn [i_pod].
     apply build_be_mem_in in Hp. unfold elig_for. cbn. tauto. }
   apply in_app_or in Hpt. destruct Hpt as [Hpt|Hpt].
-  { destruct (feat c 1 && alloc_cfg_ok c && negb (is_nil (alloc_need 1 c pods))); [|destruct Hpt].
+  { destruct (feat c 1 && alloc_cfg_ok c && negb (is_nil (alloc_need false c pods))); [|destruct Hpt].
     destruct Hpt as [<-|[]]. cbn [pt_infos pt_feature] in *.
     apply in_map_iff in Hi. destruct Hi as [p [<- Hp]]. cbn [i_pod].
     apply build_prio_in in Hp. unfold elig_for. cbn. tauto. }
@@ -215,7 +215,7 @@ Proof.
     apply in_map_iff in Hi. destruct Hi as [p [<- Hp]]. cbn [i_pod].
     apply build_be_cpu_in in Hp. unfold elig_for. cbn. tauto. }
   apply in_app_or in Hpt. destruct Hpt as [Hpt|Hpt].
-  { destruct (feat c 1 && alloc_cfg_ok c && negb (is_nil (alloc_need 1000 c pods))); [|destruct Hpt].
+  { destruct (feat c 1 && alloc_cfg_ok c && negb (is_nil (alloc_need true c pods))); [|destruct Hpt].
     destruct Hpt as [<-|[]]. cbn [pt_infos pt_feature] in *.
     apply in_map_iff in Hi. destruct Hi as [p [<- Hp]]. cbn [i_pod].
     apply build_prio_in in Hp. unfold elig_for. cbn. tauto. }
